@@ -52,6 +52,18 @@ pub fn gen_sorted_recs(rng: &mut Rng, n: usize, max: u64, base: u64, zero_len: b
 fn gen(rng: &mut Rng, tier: Tier) -> Vec<Case> {
     let mut out = vec![];
     let (nb, nr) = match tier { Tier::Quick => (1200, 200), Tier::Thorough => (20000, 4000) };
+    if tier == Tier::Thorough {
+        // exhaustive small scope: every sorted sequence of <= 4 records over 2 chromosomes, coordinates 0..=3 (zero-length included)
+        let mut univ: Vec<Rec> = vec![];
+        for ch in ["c", "cc"] { for s in 0..=3u64 { for e in s..=3u64 { univ.push(Rec::new(ch, s, e)); } } }
+        let mut frontier: Vec<Vec<usize>> = vec![vec![]];
+        for _ in 0..4 {
+            let mut next = vec![];
+            for f in &frontier { let lo = f.last().copied().unwrap_or(0); for k in lo..univ.len() { let mut g = f.clone(); g.push(k); next.push(g); } }
+            for g in &next { out.push(Case::new("exhaustive", enc(&g.iter().map(|k| univ[*k].clone()).collect::<Vec<_>>()))); }
+            frontier = next;
+        }
+    }
     for i in 0..nb {
         let n = match i % 20 { 0 => 0, 1 => 1, _ => rng.range(2, 8) as usize };
         out.push(Case::new("boundary", enc(&gen_sorted_recs(rng, n, 16, 0, true))));
@@ -67,7 +79,7 @@ fn gen(rng: &mut Rng, tier: Tier) -> Vec<Case> {
 pub fn prop() -> PropDef {
     PropDef {
         id: "C07",
-        rule: "corpus, then sorted record sequences: small (0-9 records, coordinates 0..20, 1-3 chromosomes incl. prefix names; duplicates, nested, book-ended, zero-length, gap of one base, same coordinates on consecutive chromosomes) and large (5-150 records, offsets up to u64::MAX-1e5). Non-trivial: >= 2 records, >= 2 groups, some group of size >= 2. Distinct = distinct input token sequence.",
+        rule: "corpus, then sorted record sequences: small (0-9 records, coordinates 0..20, 1-3 chromosomes incl. prefix names; duplicates, nested, book-ended, zero-length, gap of one base, same coordinates on consecutive chromosomes) and large (5-150 records, offsets up to u64::MAX-1e5). Non-trivial: >= 2 records, >= 2 groups, some group of size >= 2. Thorough adds the exhaustive small scope: every sorted sequence of <= 4 records over 2 chromosomes with coordinates 0..=3. Distinct = distinct input token sequence.",
         observable: "groups handed to the closure of merge_sorted_bed_with (in order), and the output of merge_sorted_bed",
         gen, exec, shrink, child: None,
     }
